@@ -7,7 +7,7 @@ _BIN = { ast.Add: operator.add, ast.Sub: operator.sub, ast.Mult: operator.mul, a
 _UN = { ast.USub: operator.neg, ast.UAdd: operator.pos, ast.Invert: operator.invert, ast.Not: operator.not_ }
 
 
-_PURE_STR_METHODS = ( 'startswith', 'endswith', 'lower', 'upper', 'strip', 'lstrip', 'rstrip', 'isdigit', 'split', 'replace', 'zfill', 'encode', 'decode', 'count', 'find', 'rfind', 'partition', 'rpartition', 'ljust', 'rjust', 'center', 'title', 'capitalize', 'casefold', 'isalpha', 'isalnum' )
+_PURE_STR_METHODS = ( 'startswith', 'endswith', 'lower', 'upper', 'strip', 'lstrip', 'rstrip', 'isdigit', 'split', 'rsplit', 'splitlines', 'replace', 'zfill', 'encode', 'decode', 'count', 'find', 'rfind', 'partition', 'rpartition', 'ljust', 'rjust', 'center', 'title', 'capitalize', 'casefold', 'isalpha', 'isalnum' )
 
 
 class NoFold( Exception ):
